@@ -108,12 +108,15 @@ def extra_templates():
         [S('a'), S('ib'), S('?c'), ('i', 1)], [S('a*'), S('*b'), S('*c*'), S('d')], [S('ia*'), S('b*'), S('i*c')],
         [S('?a'), S('i?b'), S('c')], [S('a'), S('b'), ('b', True)], [S('>1'), S('a'), S('ib')], [S(''), S('a'), S('*')],
         [S('ab'), S('b'), S('*b')], [S('a'), T.M((K('g'), S('b'))), S('c*')],
+        [S('a*'), S('iA*')], [S('ab'), S('iAB'), S('?ab')], [S('*a'), S('i*A'), S('*a*')], [S('ia'), S('a'), S('iA')],
     ]
     for i, l in enumerate(mixed):
         out.append(('c17-list', 'mixed%d' % i, {'idents': {'A': M((K('f'), L(*l)))}, 'cond': ('id', 'A')}))
         if all(x[0] == 's' and not x[1].startswith(('>', '<', '=')) for x in l):
             out.append(('c17-list', 'all-mixed%d' % i, {'idents': {'A': M((K('f', 'all'), L(*l)))}, 'cond': ('id', 'A')}))
             out.append(('c17-list', 'of2-mixed%d' % i, {'idents': {'A': M((K('f', ('of', 2)), L(*l)))}, 'cond': ('id', 'A')}))
+    out.append(('c17-map', 'str(f),g', {'idents': {'A': M((K('f', 'str'), S('4*')), (K('g'), S('0')))}, 'cond': ('id', 'A')}))
+    out.append(('c17-map', 'int(f),g,h', {'idents': {'A': M((K('f', 'int'), ('i', 1)), (K('g'), S('a*')), (K('h'), S('ib')))}, 'cond': ('id', 'A')}))
     out.append(('c17-map', 'f,g,h,n', {'idents': {'A': M((K('f'), S('a')), (K('g'), ('i', 1)), (K('h'), S('*b')), (K('n'), M((K('f'), S('c')))))}, 'cond': ('id', 'A')}))
     out.append(('c17-seq', '4 entries', {'idents': {'A': ('seq', [M((K('f'), S('a'))), M((K('f'), S('ib'))), M((K('g'), S('?c'))), M((K('g'), ('i', 1)))])}, 'cond': ('id', 'A')}))
     A, B, C, D = M((K('f'), S('a*'))), M((K('f'), S('*b'))), M((K('g'), ('i', 1))), M((K('h'), S('ic')))
